@@ -125,9 +125,14 @@ def _rp_main(c):
             limit = And(Or(count == Val.VNone, rz <= Val.i(count)),
                         rz == st.ghost['resends_since_datum'],            # numbered 1, 2, ... since the latest event
                         to_val(d, st) == st.ghost['latest_datum'])        # and it is the latest event that is re-sent
-            return Or(And(r == rec('set_output', Val.Obj(me), to_val(rp, st)), rz >= 1, limit),
-                      And(Rec.fn(r) == StringVal('send'), Rec.recv(r) == Val.Obj(ev), Rec.a0(r) == Val.Obj(me), rz >= 1, limit,
-                          Rec.kw(r) == with_repeat(dict_c(Val.dk(to_val(d, st))), rz), py_eq(st.readz('_output', me), to_val(rp, st))))
+            return [('each_call_is_the_expected_one_at_its_position',
+                     Or(And(r == rec('set_output', Val.Obj(me), to_val(rp, st)), rz >= 1, limit),
+                        And(Rec.fn(r) == StringVal('send'), Rec.recv(r) == Val.Obj(ev), Rec.a0(r) == Val.Obj(me), rz >= 1, limit,
+                            Rec.kw(r) == with_repeat(dict_c(Val.dk(to_val(d, st))), rz), py_eq(st.readz('_output', me), to_val(rp, st))))),
+                    ('qf:a_resent_event_carries_the_original_data_and_this_blocks_repeat_number',
+                     Implies(Rec.fn(r) == StringVal('send'), Rec.kw(r) == with_repeat(dict_c(Val.dk(to_val(d, st))), rz))),
+                    ('qf:a_resent_event_carries_this_blocks_repeat_number',
+                     Implies(Rec.fn(r) == StringVal('send'), z3.simplify(Select(Rec.kw(r), StringVal('repeat'))) == Opt.Some(Val.I(rz))))]
         c.expect_trace(expected, None, normal_len=None, predicate=True)      # an unbounded sequence: each call is checked on its own
 
 
